@@ -524,6 +524,23 @@ def entry_forms(rr, za, shared):
         else:
             rr.unresolved('entry binding of the expected id has an unrecognised form', za.mod, entry[0], witness=txt, key='entry-form')
     rr.floor('entry forms of the expected id', k, 2, za.mod, entry[0])
+    # the other direction: a caller that comes back with a NEWER id than the one the kept sets belong to (a filter with outputs sent something between a timed-out
+    # receive and this one - its sender state moved on) must not have those sets completed by messages of the newer id
+    stale = []
+    for st in za.R_recv.body:
+        if isinstance(st, ast.If) and isinstance(st.test, ast.Compare) and len(st.test.ops) == 1 and isinstance(st.test.ops[0], (ast.Gt, ast.Lt, ast.NotEq, ast.GtE)) and \
+                {U(st.test.left), U(st.test.comparators[0])} == {shared, 'self.prev_id + 1'} and any(isinstance(c, ast.Call) and isinstance(c.func, ast.Attribute) and c.func.attr == 'new_recv' for c in ast.walk(st)):
+            stale.append(st)
+    if not stale:
+        rr.violated('recv() keeps the sets of a call that timed out even when it is entered with a newer expected id than they belong to: a source that was complete for the old id stays complete and is '
+                    'returned together with the other sources\' frames of the new id', za.mod, entry[0], witness='no `if <expected id> > self.prev_id + 1: <reset the kept sets>` at entry', key='entry-drops-stale-sets')
+    for st in stale:
+        resets = [c for c in ast.walk(st) if isinstance(c, ast.Call) and isinstance(c.func, ast.Attribute) and c.func.attr == 'new_recv']
+        loops = [n_ for n_ in ast.walk(st) if isinstance(n_, ast.For) and U(n_.iter) in ('sendervs', 'senders.values()', 'self.senders.values()')]
+        rereg = [c for c in ast.walk(st) if isinstance(c, ast.Call) and isinstance(c.func, ast.Attribute) and c.func.attr == 'register']
+        whole = any(U(c.func) == 'self.new_recv' for c in resets)
+        rr.ob('at entry with a newer id every synchronized source has its kept set discarded (and a source that was complete is polled again)', whole or (bool(loops) and bool(rereg)), za.mod, st,
+              witness=U(st.test), key='entry-drops-stale-sets')
 
 
 @rule('C01.R10', 'the expected id never moves back while sets of it are held: it is (re)bound only at entry and to the id of a message process_msg accepted, prev_id only grows (shares C02.R2)')
@@ -658,3 +675,10 @@ def r12(rr, repo):
         # the topic list is the one of THIS message
         tdef = [n for n in walk_scope(za.R_once) if isinstance(n, ast.Assign) and any(isinstance(t, ast.Name) and t.id == topics_name for t in n.targets)]
         rr.ob("the topic list is taken from this message's envelope", len(tdef) == 1 and "'topics'" in U(tdef[0].value), za.mod, tdef[0] if tdef else loops[0], witness=U(tdef[0].value)[:60] if tdef else '', key='prune-topics-source')
+
+
+@rule('C01.R13', 'a frame that was overtaken is dropped, never re-sent under a newer id (which would put two different originals into one set at the next join): MQ.send() asks for a retry only after a timeout and '
+                 'uses up the id handed over by recv() (shares C02.R7)')
+def r13(rr, repo):
+    from .c02 import r7 as c02r7
+    c02r7(rr, repo)
